@@ -25,15 +25,21 @@ import symlib as L
 import vlib
 
 THEOREMS = ["C17_symbol_ranges_valid_partial", "C17_range_valid_meaning", "C17_ranges_come_from_ops", "C17_nonvacuous",
-            "C17_tree_ranges_valid", "C17_folding_ranges_valid", "C17_parse_ranges_valid", "C17_parse_nonvacuous"]
+            "C17_tree_ranges_valid", "C17_folding_ranges_valid", "C17_parse_ranges_valid", "C17_parse_nonvacuous",
+            "C17_symbol_ranges_valid_core", "C17_ranges_come_from_ast_core", "C17_pipeline_core", "C17_pipeline_nonvacuous"]
 # the tree part is stated about the grammar / kind tables regenerated from the current sources
-TRANSLATORS = ["t_tokens", "t_lextables", "t_unicode", "t_grammar", "t_grammarcert", "t_foldkinds"]
+TRANSLATORS = ["t_tokens", "t_lextables", "t_unicode", "t_grammar", "t_grammarcert", "t_foldkinds", "t_ast"]
 TRUSTED = [
     "Coq 8.16.1 kernel; vm_compute only in the closed Example",
     "PARTIAL: proved (a) for the ranges that go through the symbol map (op-level model, hypothesis ops_ranges_wf checked on real logs) and "
     "(b) for syntax-error, node, token, trimmed-node (links) and folding ranges of the parse model (C01/C02/C18 models; their ties are "
     "checked by checks C01, C02, C18); NOT proved: that index.rs passes only such ranges paired with the right file, and inlay_hint.rs positions "
     "-- covered by the oracle on every range of every real result",
+    "C17_symbol_ranges_valid_core / C17_pipeline_core: (c) for the Core fragment the statement 'index.rs passes only ranges of AST parts of the "
+    "file being indexed, paired with that file' is PROVED for group scope's indexer model Indexer.v (any number of files) and composed with "
+    "builder bridge's model pipeline Pipeline.analyze; trusted there: Indexer.v + IndexerOps.abs = index.rs + symbol_map.rs (checked state "
+    "equality in checks/C06.py, evidence bridge_to_indexer_model) and harness coreast = AstToCore.core_of_tree (bridge's checked tie); "
+    "translator t_ast (GenAst, used by the pipeline model)",
     "translators t_tokens, t_lextables, t_unicode, t_grammar, t_grammarcert, t_foldkinds (tree part)",
     "hook H3 logs every mutating SymbolMap call and IndexCtx::error with its range (cfg tablegen_lsp_verif)",
     "modelled, not verified: iset::IntervalMap, id_arena, HashMap/IndexMap (association lists)",
